@@ -175,9 +175,19 @@ theorem cliqueCore_consIn (G : SimpleG) (k : Nat) (symbreak : Bool) :
   rw [e] at this
   exact (prefix_sym_in k G.n symbreak).append this
 
-/-- pairwise adjacency of a repetition-free list, as a statement about its members -/
-theorem pairwise_adj_iff {G : SimpleG} (hG : GoodGraph G) {l : List Nat} (hn : l.Nodup) :
-    l.Pairwise (fun a b => adj G a b = true) ↔ ∀ u ∈ l, ∀ v ∈ l, u ≠ v → adj G u v = true := by
+/-- a repetition-free list of pairwise (non-)adjacent vertices can be sorted -/
+theorem exists_sorted_mono (G : SimpleG) (hG : GoodGraph G) (C : Bool) {l : List Nat} (hn : l.Nodup)
+    (hm : l.Pairwise (fun a b => adj G a b = C)) :
+    ∃ l' : List Nat, l'.Perm l ∧ l'.Pairwise (· < ·) ∧ l'.Pairwise (fun a b => adj G a b = C) := by
+  refine ⟨l.mergeSort (fun a b => decide (a ≤ b)), List.mergeSort_perm _ _, ?_, ?_⟩
+  · have hle : (l.mergeSort (fun a b => decide (a ≤ b))).Pairwise (fun a b => decide (a ≤ b) = true) :=
+      List.pairwise_mergeSort (by intro a b c; simp; omega) (by intro a b; simp; omega) l
+    have hnd : (l.mergeSort (fun a b => decide (a ≤ b))).Nodup := (List.mergeSort_perm _ _).nodup_iff.2 hn
+    exact sorted_of_le_nodup (hle.imp (by intro a b h; simpa using h)) hnd
+  · exact ((List.mergeSort_perm l _).pairwise_iff (fun {x y} h => by rw [hG.symm]; exact h)).2 hm
+
+theorem pairwise_mono_iff {G : SimpleG} (hG : GoodGraph G) (C : Bool) {l : List Nat} (hn : l.Nodup) :
+    l.Pairwise (fun a b => adj G a b = C) ↔ ∀ u ∈ l, ∀ v ∈ l, u ≠ v → adj G u v = C := by
   induction l with
   | nil => simp
   | cons x xs ih =>
@@ -197,16 +207,16 @@ theorem pairwise_adj_iff {G : SimpleG} (hG : GoodGraph G) {l : List Nat} (hn : l
         fun u hu v hv hne => h u (List.mem_cons_of_mem _ hu) v (List.mem_cons_of_mem _ hv) hne⟩
       rintro rfl; exact hn.1 ha
 
+/-- pairwise adjacency of a repetition-free list, as a statement about its members -/
+theorem pairwise_adj_iff {G : SimpleG} (hG : GoodGraph G) {l : List Nat} (hn : l.Nodup) :
+    l.Pairwise (fun a b => adj G a b = true) ↔ ∀ u ∈ l, ∀ v ∈ l, u ≠ v → adj G u v = true :=
+  pairwise_mono_iff hG true hn
+
 /-- sorting a repetition-free list of pairwise adjacent vertices -/
 theorem exists_sorted_of_nodup {G : SimpleG} (hG : GoodGraph G) {l : List Nat} (hn : l.Nodup)
     (ha : l.Pairwise (fun a b => adj G a b = true)) :
-    ∃ l' : List Nat, l'.Perm l ∧ l'.Pairwise (· < ·) ∧ l'.Pairwise (fun a b => adj G a b = true) := by
-  refine ⟨l.mergeSort (fun a b => decide (a ≤ b)), List.mergeSort_perm _ _, ?_, ?_⟩
-  · have hle : (l.mergeSort (fun a b => decide (a ≤ b))).Pairwise (fun a b => decide (a ≤ b) = true) :=
-      List.pairwise_mergeSort (by intro a b c; simp; omega) (by intro a b; simp; omega) l
-    have hnd : (l.mergeSort (fun a b => decide (a ≤ b))).Nodup := (List.mergeSort_perm _ _).nodup_iff.2 hn
-    exact sorted_of_le_nodup (hle.imp (by intro a b h; simpa using h)) hnd
-  · exact ((List.mergeSort_perm l _).pairwise_iff (fun {x y} h => by rw [hG.symm]; exact h)).2 ha
+    ∃ l' : List Nat, l'.Perm l ∧ l'.Pairwise (· < ·) ∧ l'.Pairwise (fun a b => adj G a b = true) :=
+  exists_sorted_mono G hG true hn ha
 
 /-! ### subgraph / induced subgraph -/
 
